@@ -226,7 +226,7 @@ type srvWorld struct {
 	rng          *rand.Rand
 	// shared != nil: every request of the current behaviour/round is stated against the SAME tree state (same pre-root, same
 	// start index for insertion) and differs only in what it writes — the situation of several batchers racing on one contract state
-	shared *rand.Rand
+	shared     *rand.Rand
 	sharedSeed int64
 }
 
